@@ -65,13 +65,14 @@ type verifConn struct {
 	noDeadlineErrs bool
 	onWrite func(c *verifConn) // hook after each accepted write
 	coarse  bool               // case-split faulty write offsets coarsely (0, 1, len-1)
+	onClose func()             // hook at Close
 	slow    bool               // a Write takes time: other goroutines get to run meanwhile (scheduling point)
 }
 
 func (c *verifConn) Write(p []byte) (int, error) {
 	c.wcalls++
-	if c.slow {
-		verifYield()
+	if c.slow && len(p) > 0 {
+		verifYieldTag(string([]byte{'w', "0123456789abcdef"[p[0]>>4], "0123456789abcdef"[len(p)&15]}))
 	}
 	if c.closed {
 		return 0, net.ErrClosed
@@ -95,6 +96,11 @@ func (c *verifConn) Write(p []byte) (int, error) {
 		}
 		return len(p), nil
 	case verifWClosed:
+		// somebody (the read routine, Close) closed the connection meanwhile
+		if c.onClose != nil && !c.closed {
+			c.closed = true
+			c.onClose()
+		}
 		c.closed = true
 		return 0, net.ErrClosed
 	}
@@ -148,6 +154,9 @@ func (c *verifConn) Read(p []byte) (int, error) {
 func (c *verifConn) Close() error {
 	c.closeCalls++
 	c.closed = true
+	if c.onClose != nil && c.closeCalls == 1 {
+		c.onClose()
+	}
 	return c.closeErr
 }
 
